@@ -100,7 +100,23 @@ pub fn build(rng: &mut Rng, plan: &Plan) -> Result<Built, String> {
 pub fn open_reader<'a>(bytes: &'a [u8], privs: &[StaticSecret]) -> Result<ArchiveReader<'a, Cursor<&'a [u8]>>, String> {
     let mut cfg = ArchiveReaderConfig::new();
     cfg.add_private_keys(privs);
+    failsafe_flag_noise(&mut cfg, bytes.len());
     ArchiveReader::from_config(Cursor::new(bytes), cfg).map_err(|e| format!("{e:?}"))
+}
+
+/// The fail-safe decryption mode is documented as FailSafeReader-only: whatever it is set to,
+/// the NORMAL reader must behave the same. Set it one way or the other (by the parity of a
+/// number the caller has at hand), so that a dependence shows up as a property failure.
+pub fn failsafe_flag_noise(cfg: &mut ArchiveReaderConfig, n: usize) {
+    match n % 3 {
+        0 => {
+            cfg.failsafe_return_data_even_unauthenticated();
+        }
+        1 => {
+            cfg.failsafe_return_only_authenticated_data();
+        }
+        _ => {}
+    }
 }
 
 fn status_row<T, E>(r: &Result<Result<T, E>, String>) -> Vec<u64> {
@@ -123,6 +139,7 @@ pub fn run_history_src<R: Read + std::io::Seek>(src: R, src_len: usize, privs: &
     let opened = catch(|| {
         let mut cfg = ArchiveReaderConfig::new();
         cfg.add_private_keys(privs);
+        failsafe_flag_noise(&mut cfg, src_len);
         ArchiveReader::from_config(src, cfg).map_err(|e| format!("{e:?}"))
     });
     let mut rd = match opened {
